@@ -35,6 +35,11 @@ func (c *momentumPool) AddMomentumTransaction(insertLocker sync.Locker, transact
 
 	momentum := transaction.Momentum
 
+	// a momentum generated for an older frontier (e.g. by the pillar while sync moved on) must not be inserted
+	if frontierIdentifier := c.getFrontierStore().Identifier(); momentum.Previous() != frontierIdentifier {
+		return errors.Errorf("can't insert momentum %v. Its previous %v is not the frontier %v", momentum.Identifier(), momentum.Previous(), frontierIdentifier)
+	}
+
 	if err := c.chainManager.Add(transaction); err != nil {
 		return err
 	}
